@@ -149,7 +149,7 @@ func msgCatalogue() []*eng.Case {
 
 func streamMsg(seed uint64, driver string) (*Summary, error) {
 	sum := newSummary("msg", seed)
-	sum.Rule = "every built-in test of every schema type incl. the Not() variants, required / not_nil (every inner type) / coerce, z.CustomFunc schemas (failing test, type mismatch), forced to fail once, x 13 formatter levels (incl. language values that are not strings) (global default, execution en/es, i18n none/en/es/unknown language, i18n after a HISTORY of installations with and without WithLangKey and a context naming languages under several keys) x {no test message, test-level Message}; exhaustive over this product; non-trivial = every case (each produces exactly the issue under test); distinct = distinct case line"
+	sum.Rule = "every built-in test of every schema type incl. the Not() variants, required / not_nil (every inner type) / coerce, z.CustomFunc schemas (failing test, type mismatch), forced to fail once, x 13 formatter levels (incl. language values that are not strings) (global default, execution en/es, i18n none/en/es/unknown language, i18n after a HISTORY of installations with and without WithLangKey and a context naming languages under several keys) x {no test message, test-level Message}, plus every single-test case with a Params option of 2..4 parameters whose values hold each other's placeholders (3 formatter levels, each repeated 8 times); exhaustive over this product; non-trivial = every case (each produces exactly the issue under test); distinct = distinct case line"
 	base := msgCatalogue()
 	var cases []*eng.Case
 	for _, c := range base {
@@ -189,11 +189,55 @@ func streamMsg(seed uint64, driver string) (*Summary, error) {
 			}
 		}
 	}
+	// the Params option replacing the test's own parameters by two to four parameters whose values hold each
+	// other's placeholders (the test's own parameter name among them): the message must not depend on the order
+	// in which a formatter walks the parameter map, for any number of parameters
+	paramsFrom := len(cases)
+	for _, c := range base {
+		if len(c.Schema.Tests) != 1 || c.Schema.Tests[0].Name == "booleq" {
+			continue
+		}
+		own := "a"
+		for _, l := range eng.Run(c).Issues {
+			for _, is := range l {
+				if len(is.Params) > 0 {
+					own = is.Params[0][0]
+				}
+			}
+		}
+		ring := [][2]string{{own, "{{z}}"}, {"z", "{{" + own + "}}"}, {"y", "{{z}}{{" + own + "}}"}, {"x", "{{y}}"}}
+		for k := 2; k <= 4; k++ {
+			for _, f := range []string{"", "exec:es", "i18n:es"} {
+				c2 := *c
+				c2.Fmt = f
+				n2 := *c.Schema
+				t := n2.Tests[0]
+				t.Opts.HasParams = true
+				t.Opts.Params = ring[:k]
+				n2.Tests = []eng.TestSpec{t}
+				c2.Schema = &n2
+				c2.ID = len(cases)
+				cases = append(cases, &c2)
+			}
+		}
+	}
 	lines := make([]string, len(cases))
 	impls := make([]*eng.Result, len(cases))
 	for i, c := range cases {
 		impls[i] = eng.Run(c)
 		lines[i] = c.Line(impls[i].Order)
+		if i >= paramsFrom {
+			// identical on every run (C09): the same call again and again
+			first := impls[i].Sx(c.ID).String()
+			for k := 0; k < 8; k++ {
+				if again := eng.Run(c).Sx(c.ID).String(); again != first {
+					for _, pid := range []string{"C09", "C11"} {
+						sum.addViolation(pid, Mismatch{Case: lines[i], Impl: again, Model: first, What: "the same call gives another result when it is repeated (Impl: a later run, Model: the first run)"})
+					}
+					break
+				}
+			}
+		}
 	}
 	models, err := runDriver(driver, lines)
 	if err != nil {
@@ -227,7 +271,7 @@ func streamMsg(seed uint64, driver string) (*Summary, error) {
 		for _, k := range iv.issues.List[1:] {
 			for _, is := range k.List[1:] {
 				code, dtype, msg := is.List[1].Str(), is.List[3].Str(), is.List[5].Str()
-				own := strings.HasPrefix(msg, "custom ")
+				own := strings.HasPrefix(msg, "custom ") || i >= paramsFrom
 				if code == "" || dtype == "" || msg == "" || (!own && strings.Contains(msg, "{{")) {
 					sum.addViolation("C11", Mismatch{Case: lines[i], Impl: implLine, What: fmt.Sprintf("issue not fully described: code=%q dtype=%q message=%q", code, dtype, msg)})
 				}
